@@ -155,7 +155,9 @@ def run(pid, tier, replay):
     chk.cov["rule"] = ("corpus = TLC-enumerated D-Bus encodings with every single-byte mutation / truncation (thinned 1/%d in this tier), "
                        "GVariant encodings of TLC-enumerated values, nestings at the depth limits (reference encodings), deep-signature "
                        "families; each entry decoded unmutated and under %d seeded mutations, as a dynamic value for its signature and as 23+ "
-                       "typed Rust targets, in 4 feature builds; evaluations = decode calls; distinct_nontrivial = distinct corpus entries") % (step, reps)
+                       "typed Rust targets, in 4 feature builds; short GVariant container encodings additionally with every byte set to every "
+                       "small value (framing-offset sweep, dynamic targets); evaluations = decode calls; distinct_nontrivial = distinct "
+                       "corpus entries") % (step, reps)
     for x in allobs[:4]:
         o = json.loads(x)
         chk.sample({k: o.get(k) for k in ("fmt", "sig", "len", "calls", "max_alloc_peak", "outcome")})
